@@ -306,14 +306,25 @@ func TestVerifC08(t *testing.T) {
 		select {
 		case out = <-done:
 		case <-time.After(45 * time.Second):
+			// second observation a minute later: a request that returns meanwhile was slow (inconclusive), not endless
 			d1 := vfHandlerFrames()
-			time.Sleep(3 * time.Second)
+			late := false
+			select {
+			case out = <-done:
+				late = true
+			case <-time.After(60 * time.Second):
+			}
+			if late {
+				r.Inconclusive("request-slower-than-45s")
+				et.next()
+				continue
+			}
 			d2 := vfHandlerFrames()
 			sig := "no-termination:unclassified"
 			if d1 != "" && d1 == d2 {
 				sig = "no-termination:" + d1
 			}
-			r.Violation(sig, map[string]any{"method": h.method, "url": vfTrunc([]byte(h.url), 400), "body": vfTrunc([]byte(h.body), 200), "watchdog_s": 45})
+			r.Violation(sig, map[string]any{"method": h.method, "url": vfTrunc([]byte(h.url), 400), "body": vfTrunc([]byte(h.body), 200), "watchdog_s": 105})
 			continue
 		}
 		r.Eval(1)
